@@ -81,6 +81,10 @@ World == [clients |-> [c \in Clients |-> [auth |-> Reg[c].auth, app |-> Reg[c].a
                                           \* how the registration spells client_secret_basic: "unset" = the storage names no method at all (the
                                           \* empty string; OpenID Connect Dynamic Client Registration 2: the default is client_secret_basic) -
                                           \* a value outside the four constants the library enumerates. Such a client authenticates with its secret.
-                                          method |-> IF c \in {"cd", "cs"} THEN "unset" ELSE "explicit"]],
+                                          method |-> IF c \in {"cd", "cs"} THEN "unset" ELSE "explicit",
+                                          \* the storage holds a public key for the client: private_key_jwt clients - and cw, which authenticates with its
+                                          \* secret and registered a key for another purpose (signing request objects). An assertion signed with that key
+                                          \* is a credential of the wrong kind for cw.
+                                          hasKey |-> Reg[c].auth = "pkjwt" \/ c = "cw"]],
           users |-> Users, uris |-> URIs]
 =============================================================================
